@@ -80,7 +80,7 @@ class Ctx:
         if isinstance(q, int):
             return X(self, self.F(q), Fraction(q))
         if isinstance(q, Fraction):
-            return X(self, self.F.ground_new(QQ(q.numerator, q.denominator)), q)
+            return X(self, self.F.ground_new(QQ(int(q.numerator), int(q.denominator))), Fraction(int(q.numerator), int(q.denominator)))
         if isinstance(q, float):
             if q == int(q) and abs(q) < 2**53:
                 return self.const(int(q))
@@ -504,6 +504,18 @@ class X:
     def __repr__(self):
         s = str(self.c.reduce(self).v)
         return s if len(s) < 400 else s[:400] + "..."
+
+    def diff(self, name: str) -> "X":
+        g = self.c.F.gens[self.c.names.index(name)]
+        return X(self.c, self.v.diff(g), None)
+
+    def coeff_abs_sum(self) -> Fraction:
+        """sum of |coefficients| of a polynomial element (denominator must be a ground constant)."""
+        n, d = self.v.numer, self.v.denom
+        if not d.is_ground:
+            raise Unsupported("coeff_abs_sum of a non-polynomial")
+        dd = Fraction(int(d.LC.numerator), int(d.LC.denominator))
+        return sum((abs(Fraction(int(c.numerator), int(c.denominator))) for _, c in n.terms()), Fraction(0)) / abs(dd)
 
     def subs_point(self, point: dict) -> Fraction:
         """Evaluate at a rational point (names -> Fraction); radicals not allowed."""
